@@ -125,6 +125,16 @@ CLAIMED = {
         note="Partial: arbitrary (non-prefix) declare-before-use-closed subsets need a frame lemma that is exercised but not proved.",
         technique="Lean 4 proof (split-equivalence by induction over the module tree) + split-vs-single differential check",
         ref="DESIGN.md section 8, C20"),
+    "C12": dict(
+        text="Lean theorems: `reflect` models FcpV2.reflection() and every reflection() method (flattened type chains, str(value) of extension values, "
+             "optional unit/range/meta); whenever the record fits the reflection schema (wf reflTy, decidable) the Python codec round trip returns it "
+             "(from the C01 refinement); the type chain determines the type (unchain ∘ chain = id for non-numeric leaves); the record lists every "
+             "struct/enum/binding/service. reflection.fcp is translated to Lean on every run and the kernel re-checks that struct Fcp resolves to the "
+             "hand-written reflTy. Tie: generated schemas over every node kind, real record vs model record, serde round trip, bytes vs canonical.",
+        note="Source positions are inputs of the model; the guard wf reflTy (reflect S) is evaluated per schema rather than derived from a simpler "
+             "range predicate; negative field ids are a recorded finding; strings are 7-bit.",
+        technique="Lean 4 proof (record model + codec round trip + chain inverse) + translated reflection schema + differential check",
+        ref="DESIGN.md section 8, C12"),
     "C09": dict(
         text="Lean theorems: the model of Verifier.verify (category loop, registered checks in registration order, the code's own count>1 idiom) "
              "returns ok iff WellFormed S, iff WellFormed S and DbcOk S with the DBC checks, iff WellFormed S and COk S with the C checks; and the "
